@@ -533,7 +533,8 @@ impl<const SELECT0_SUPPORT: bool> SelectBin for DArray<SELECT0_SUPPORT> {
     fn select0(&self, i: usize) -> Option<usize> {
         assert!(SELECT0_SUPPORT);
 
-        self.select(i, self.zeroes_inventories.as_ref().unwrap())
+        // a default-constructed (empty) DArray has no inventory for zeros
+        self.select(i, self.zeroes_inventories.as_ref()?)
     }
 
     /// Answers a `select0` query without checkin bounds.
